@@ -12,7 +12,11 @@ PROP = dict(
                     "mpt_stream_dispatch on the other.  C++ level: mpt::encode_queue (push, done, trim with full / partial / excessive amounts) -> "
                     "wire -> mpt::decode_queue (advance, pending_message, current_message with and without continuation vector) on fixed rings "
                     "of 32..128 bytes and growable rings, 4 COBS framings + command framing, with return-value-versus-effect checks for "
-                    "every call.  After each operation the messages obtained are compared with the sent log "
+                    "every call.  Receivers of the stream level are plain mpt_stream_dispatch users and inputs made by mpt_stream_input() "
+                    "(next/dispatch of the input interface, message id length 0 and 1..8).  Encoder-less (raw) encode queues in C and C++ and a "
+                    "stream without encoder are driven against a byte model (finished / pending accounting, commit, rollback, partial "
+                    "acceptance at the capacity boundary followed by growth and continuation, committed bytes leave exactly once and in order).  "
+                    "After each operation the messages obtained are compared with the sent log "
                     "(exactly once, in order, byte-equal; decoded part of the message in progress is a prefix of the next message), "
                     "queue invariants are checked, and a complete frame has to be delivered within a bounded number of receive "
                     "attempts once the reader got the space it asked for.  Exploration, not proof."),
@@ -25,12 +29,21 @@ PROP = dict(
                            "push-path:upper-part": 10000, "push-path:out-of-band": 2000,
                            "state:large-push-behind-queued-frames-at-offset": 20000, "state:large-push-partial-append-in-lower-part": 5000,
                            "history:enc-wrapped": 5000, "history:dec-wrapped": 5000, "history:message-split": 5000,
-                           "history:frame-in-several-segments": 20000, "monitor:progress-check": 10000}),
+                           "history:frame-in-several-segments": 20000, "monitor:progress-check": 10000,
+                           "mpt_queue_push(raw)": 100000, "mpt_queue_push(raw commit)": 20000, "mpt_queue_push(raw rollback)": 10000,
+                           "monitor:raw-model-compare": 200000, "monitor:raw-wire-compare": 10000,
+                           "state:raw-partial-accept": 20000, "state:raw-partial-accept-wrapping": 2000,
+                           "state:raw-continued-after-partial-accept": 20000, "raw:grown": 20000, "raw:rollback": 3000}),
               dict(name="c02_stream", src=["c02_stream.c"], libs=["mptio", "mptcore"], batch=64,
                    floors={"mpt_stream_push": 100000, "mpt_stream_flush": 100000, "mpt_stream_dispatch": 100000,
                            "dispatch:callback": 50000, "dispatch:retry": 5000,
                            "history:stream-frame-in-several-segments": 5000, "history:stream-dec-wrapped": 2000,
-                           "history:flush-met-full-transport": 20, "monitor:stream-progress-check": 10000}),
+                           "history:flush-met-full-transport": 20, "monitor:stream-progress-check": 10000,
+                           "input::dispatch": 100000, "input::next": 100000, "input:event": 20000,
+                           "receiver:stream-input": 1000, "receiver:stream-input-with-id": 300,
+                           "state:input-empty-message-after-retry": 1000, "state:stream-empty-message-after-retry": 1000,
+                           "mpt_stream_push(raw)": 20000, "mpt_stream_push(raw terminate)": 5000, "mpt_stream_flush(raw)": 10000,
+                           "monitor:raw-stream-wire-compare": 5000, "state:raw-stream-push-larger-than-free-space": 10000}),
               dict(name="c02_cxx", src=["c02_cxx.cpp"], libs=["mpt++", "mptio", "mptplot", "mptcore"], batch=64,
                    floors={"encode_queue::push": 300000, "encode_queue::trim": 300000, "decode_queue::advance": 500000,
                            "decode_queue::current_message": 100000, "decode_queue::current_message(no cont)": 30000,
@@ -39,7 +52,11 @@ PROP = dict(
                            "state:cxx-trim-all-with-unfinished-message": 20000, "state:cxx-trim-partial": 20000,
                            "state:cxx-empty-message-last-in-data": 2000, "state:cxx-large-push-behind-queued-frames-at-offset": 2000,
                            "trim:cxx-refused-too-much": 10000, "history:cxx-enc-wrapped": 1000, "history:cxx-dec-wrapped": 5000,
-                           "monitor:cxx-conservation-at-end": 10000})],
+                           "monitor:cxx-conservation-at-end": 10000,
+                           "encode_queue::push(raw)": 100000, "encode_queue::push(raw commit)": 20000, "encode_queue::push(raw rollback)": 10000,
+                           "encode_queue::trim(raw)": 20000, "monitor:cxx-raw-model-compare": 200000,
+                           "state:cxx-raw-partial-accept": 20000, "state:cxx-raw-partial-accept-wrapping": 2000,
+                           "state:cxx-raw-continued-after-partial-accept": 20000, "state:cxx-raw-trim-with-pending": 3000})],
         rule=("case = one history.  Queue leg: framing, encode/decode ring capacity and start offset, 5..60 messages (length 0..1600, "
               "thorough ..4200; unique ids; zero pairs, block-boundary lengths), PRNG schedule of push piece / terminate / move k "
               "finished bytes (1 byte, up to / just behind a delimiter, behind a code byte, all) / receive / shift / peek / rotate ring; "
@@ -55,5 +72,8 @@ PROP = dict(
                                 "C++ leg: advance() consumes the current message, so a message pending after advance() is the next one; "
                                 "a fixed ring that is full without a pending message ends the history (capacity, not a stall)",
                                 "stream leg: transports are non-blocking pipes and AF_UNIX stream sockets; datagram mode is not driven",
+                                "raw mode: push takes min(length, free space), push(0,0) commits, push(1,NULL) drops the pending part, anything else with NULL data is refused "
+                                "(queue_push.c); a stream without encoder ends a message with the platform line separator",
+                                "mpt_stream_input with id length n: messages carry n id bytes with the reply bit clear; the handler sees the rest",
                                 "mpt_queue_peek: return value and copied bytes are only required to be the decoded length / a prefix of the next message"],
     )
